@@ -185,6 +185,8 @@ const (
 	verifTickSrvIdle                   // server: the idle timer has fired (closeIdleConn has sent its GOAWAY and closed closer)
 	verifTickSrvOpening                // server stream loop: about to open a stream for a HEADERS frame (before it re-checks closing)
 	verifTickCliGoAwaySweep            // client read loop: a GOAWAY has been taken in, the streams it disclaims are about to be failed
+	verifTickCliReqOnTable             // client write loop: writeRequest has put the request on the table and is about to re-check goAway
+	verifTickCliReqFailed              // client write loop: writeRequest has returned an error (and let go of the Ctx lock); the loop is about to resolve the Ctx
 	verifTickCount
 )
 
@@ -210,6 +212,8 @@ const (
 	VerifTickSrvIdle            = verifTickSrvIdle
 	VerifTickSrvOpening         = verifTickSrvOpening
 	VerifTickCliGoAwaySweep     = verifTickCliGoAwaySweep
+	VerifTickCliReqOnTable      = verifTickCliReqOnTable
+	VerifTickCliReqFailed       = verifTickCliReqFailed
 	VerifTickCount              = verifTickCount
 )
 
